@@ -182,5 +182,3 @@ func firstLines(s string, n int) string {
 	return strings.Join(l, " | ")
 }
 
-func cmdCheck(args []string) int  { fmt.Println("not yet"); return 2 }
-func cmdReplay(args []string) int { fmt.Println("not yet"); return 2 }
